@@ -425,7 +425,9 @@ class Differ:
 
     def diff(self, left=None, right=None):
         # Make sure the matching is done first, diff() needs the l2r/r2l maps.
-        if not self._matches:
+        # New trees always need a new matching; without arguments the
+        # trees given to set_trees() or match() are used.
+        if left is not None or right is not None or not self._matches:
             self.match(left, right)
 
         # First, deal with namespaces:
